@@ -1,42 +1,42 @@
-From JV Require Import Bytes BinDeStream.
-From Coq Require Import Lia.
+From JV Require Import Bytes Tables BinDeStream.
+From Coq Require Import Lia List.
+Import ListNotations.
 
-(* text key loop: a one-shot fault is either not reached (same answer) or reported as the I/O error *)
-Lemma text_key_fault_sound_n : forall n root l1 l2, (length l1 <= n)%nat ->
-  text_next_key root (l1 ++ RIo :: l2) = KErrIo \/
-  text_next_key root (l1 ++ RIo :: l2) = text_next_key root (l1 ++ l2).
+(* a key loop that propagates: a one-shot fault is either not reached (same answer) or reported
+   as the I/O error *)
+Lemma key_fault_sound_n : forall n root l1 l2, (length l1 <= n)%nat ->
+  next_key true root (l1 ++ RIo :: l2) = KErrIo \/
+  next_key true root (l1 ++ RIo :: l2) = next_key true root (l1 ++ l2).
 Proof.
   induction n as [|n IH]; intros root l1 l2 L.
   - destruct l1; [|cbn in L; lia]. left. reflexivity.
   - destruct l1 as [|a l1]; [left; reflexivity|]. cbn [app].
     destruct a as [t| |]; [|right; reflexivity|right; reflexivity].
     destruct t; try (right; reflexivity).
-    (* Open: skip_container result is the next entry *)
-    destruct l1 as [|b l1]; [left; reflexivity|]. cbn [app text_next_key].
+    destruct l1 as [|b l1]; [left; reflexivity|]. cbn [app next_key].
     destruct b; try (right; reflexivity).
     apply IH. cbn in L. lia.
 Qed.
 
-Lemma text_key_fault_sound : forall root l1 l2,
-  text_next_key root (l1 ++ RIo :: l2) = KErrIo \/
-  text_next_key root (l1 ++ RIo :: l2) = text_next_key root (l1 ++ l2).
-Proof. intros. apply (text_key_fault_sound_n (length l1)). lia. Qed.
+Lemma key_fault_sound : forall root l1 l2,
+  next_key true root (l1 ++ RIo :: l2) = KErrIo \/
+  next_key true root (l1 ++ RIo :: l2) = next_key true root (l1 ++ l2).
+Proof. intros. apply (key_fault_sound_n (length l1)). lia. Qed.
 
-(* binary key loop: the same statement is false (finding G) *)
-Lemma bin_key_fault_unsound : exists root l1 l2,
-  bin_next_key root (l1 ++ RIo :: l2) <> KErrIo /\
-  bin_next_key root (l1 ++ RIo :: l2) <> bin_next_key root (l1 ++ l2).
+(* a key loop that discards the result is unsound (this was finding G in binary/de.rs) *)
+Lemma discarding_key_loop_unsound : exists root l1 l2,
+  next_key false root (l1 ++ RIo :: l2) <> KErrIo /\
+  next_key false root (l1 ++ RIo :: l2) <> next_key false root (l1 ++ l2).
 Proof.
   exists false, [RTok TOpen], [RTok TClose; RTok (TScalar 1)]. split; cbn; discriminate.
 Qed.
 
-(* without a ghost object in key position the binary loop is sound as well *)
-Lemma bin_key_fault_sound_no_ghost : forall root l1 l2,
-  (forall x, In x l1 -> x <> RTok TOpen) ->
+Lemma text_key_fault_sound : text_key_loop_propagates = true -> forall root l1 l2,
+  text_next_key root (l1 ++ RIo :: l2) = KErrIo \/
+  text_next_key root (l1 ++ RIo :: l2) = text_next_key root (l1 ++ l2).
+Proof. unfold text_next_key. intros ->. apply key_fault_sound. Qed.
+
+Lemma bin_key_fault_sound : bin_key_loop_propagates = true -> forall root l1 l2,
   bin_next_key root (l1 ++ RIo :: l2) = KErrIo \/
   bin_next_key root (l1 ++ RIo :: l2) = bin_next_key root (l1 ++ l2).
-Proof.
-  intros root l1 l2 H. destruct l1 as [|a l1]; [left; reflexivity|]. cbn [app].
-  destruct a as [t| |]; [|right; reflexivity|right; reflexivity].
-  destruct t; try (right; reflexivity). exfalso. apply (H (RTok TOpen)); [left|]; reflexivity.
-Qed.
+Proof. unfold bin_next_key. intros ->. apply key_fault_sound. Qed.
